@@ -1107,3 +1107,73 @@ Proof.
   intros nf na regs m p CP. unfold serve. rewrite CP. unfold not_found.
   destruct (router_flags nf na regs) as [A _]. rewrite A. reflexivity.
 Qed.
+
+(* without the distinct-names assumption: every delivered pair is a (name, segment) pair of
+   a variable position, every variable name is delivered, no name twice *)
+Lemma binds_in_raw : forall pat segs kv, In kv (binds pat segs) -> In kv (raw_binds pat segs).
+Proof.
+  induction pat as [|p pat IH]; intros segs kv H; [contradiction|].
+  destruct segs as [|s segs]; [contradiction|]. cbn in *. destruct (is_var p).
+  - unfold set_param in H. destruct H as [H|H]; [left; exact H|].
+    apply filter_In in H. right. apply IH. apply H.
+  - apply IH. exact H.
+Qed.
+
+Lemma set_param_keys : forall k v ps x, In x (map fst (set_param k v ps)) <-> x = k \/ In x (map fst ps).
+Proof.
+  intros k v ps x. unfold set_param. cbn. split.
+  - intros [H|H]; [left; congruence|]. right. apply in_map_iff in H. destruct H as [y [E H]].
+    apply filter_In in H. apply in_map_iff. exists y. split; [exact E | apply H].
+  - intros [H|H]; [left; congruence|]. destruct (String.eqb_spec x k) as [E|N]; [left; congruence|].
+    right. apply in_map_iff in H. destruct H as [y [E H]]. apply in_map_iff. exists y.
+    split; [exact E|]. apply filter_In. split; [exact H|]. subst x.
+    apply negb_true_iff. apply neq_eqb_false. exact N.
+Qed.
+
+Lemma var_names_cons : forall p pat,
+  var_names (p :: pat) = if is_var p then var_name p :: var_names pat else var_names pat.
+Proof. intros. unfold var_names. cbn. destruct (is_var p); reflexivity. Qed.
+
+Lemma binds_keys : forall pat segs, matches pat segs ->
+  forall k, In k (map fst (binds pat segs)) <-> In k (var_names pat).
+Proof.
+  induction pat as [|p pat IH]; intros segs M k.
+  - reflexivity.
+  - destruct segs as [|s segs]; [inversion M|]. apply matches_cons in M. destruct M as [_ M].
+    rewrite var_names_cons.
+    change (binds (p :: pat) (s :: segs))
+      with (if is_var p then set_param (var_name p) s (binds pat segs) else binds pat segs).
+    destruct (is_var p).
+    + rewrite set_param_keys. rewrite (IH _ M). cbn [In]. split; intros [H|H]; auto.
+    + apply IH. exact M.
+Qed.
+
+Lemma set_param_nodup : forall k v ps, NoDup (map fst ps) -> NoDup (map fst (set_param k v ps)).
+Proof.
+  intros k v ps ND. unfold set_param. cbn. constructor.
+  - intro H. apply in_map_iff in H. destruct H as [y [E H]]. apply filter_In in H.
+    destruct H as [_ H]. rewrite E, String.eqb_refl in H. discriminate.
+  - induction ps as [|[k' v'] ps IH]; cbn; [constructor|].
+    cbn in ND. apply NoDup_cons_iff in ND. destruct ND as [NI ND]. destruct (k' =? k); cbn.
+    + apply IH. exact ND.
+    + constructor; [|apply IH; exact ND]. intro H. apply NI.
+      apply in_map_iff in H. destruct H as [y [E H]]. apply filter_In in H.
+      apply in_map_iff. exists y. split; [exact E | apply H].
+Qed.
+
+Lemma binds_nodup : forall pat segs, NoDup (map fst (binds pat segs)).
+Proof.
+  induction pat as [|p pat IH]; intros segs; [constructor|].
+  destruct segs as [|s segs]; [constructor|].
+  change (binds (p :: pat) (s :: segs))
+    with (if is_var p then set_param (var_name p) s (binds pat segs) else binds pat segs).
+  destruct (is_var p); [apply set_param_nodup|]; apply IH.
+Qed.
+
+Lemma L_binds_general : forall pat segs, matches pat segs ->
+  (forall kv, In kv (binds pat segs) -> In kv (raw_binds pat segs)) /\
+  (forall k, In k (map fst (binds pat segs)) <-> In k (var_names pat)) /\
+  NoDup (map fst (binds pat segs)).
+Proof.
+  intros pat segs M. split; [apply binds_in_raw|]. split; [apply binds_keys; exact M | apply binds_nodup].
+Qed.
